@@ -370,6 +370,17 @@ func classes(c Case) []string {
 	if c.CWin.Mode == "early" {
 		set["credit-before-first-frame"] = true
 	}
+	for _, f := range all {
+		if f.T == "D" && f.N > 16384 {
+			set["data-frame-above-16384"] = true
+		}
+		if f.Bare {
+			set["header-block-without-fields"] = true
+		}
+	}
+	if (c.CMax > 16384) != (c.SMax > 16384) {
+		set["asymmetric-max-frame-size"] = true
+	}
 	for _, f := range c.Client {
 		if f.T == "T" && f.Table > 4096 {
 			set["encoder-table-above-4096"] = true
@@ -663,7 +674,11 @@ func (r *runner) play(ep, self *h2kit.Endpoint, dir string, frames []Frame, serv
 		switch f.T {
 		case "H":
 			var n int
-			n, err = ep.WriteHeaders(h2kit.HeadersSpec{Stream: f.S, Fields: f.Fields, EndStream: f.End, Prio: f.Prio, Pad: f.Pad, Cuts: f.Cuts})
+			spec := h2kit.HeadersSpec{Stream: f.S, Fields: f.Fields, EndStream: f.End, Prio: f.Prio, Pad: f.Pad, Cuts: f.Cuts}
+			if f.Bare {
+				spec.Fields, spec.Raw = nil, h2kit.TableSizeUpdate4096
+			}
+			n, err = ep.WriteHeaders(spec)
 			r.noteBlock(dir, f.S, n)
 			if !server && r.c.CWin.Mode == "early" && !opened[f.S] {
 				// credit for the answer before anything of it exists
@@ -769,6 +784,20 @@ const (
 	sigPushCont = "C08/push-promise/continued-block/relay-direction-aborted"
 )
 
+func largeFrames(frames []Frame) bool {
+	for _, f := range frames {
+		if f.T == "D" && f.N > 16384 {
+			return true
+		}
+		for _, fl := range f.Fields {
+			if len(fl.V) > 16384 {
+				return true
+			}
+		}
+	}
+	return false
+}
+
 func growsTable(frames []Frame) bool {
 	for _, f := range frames {
 		if f.T == "T" && f.Table > 4096 {
@@ -845,9 +874,15 @@ func runOnce(c Case, bound time.Duration, vr variant) (v kit.Verdict, slow bool)
 	// SETTINGS now (and may then use a larger HPACK table if one was allowed)
 	if earlyAck(c.SWin) {
 		cl.AckSettings()
+		if c.SMax > 16384 {
+			cl.SetMaxFragment(frameCap(c.SWin, c.SMax) - 300) // room for pad length, padding, priority
+		}
 	}
 	if earlyAck(c.CWin) {
 		sv.AckSettings()
+		if c.CMax > 16384 {
+			sv.SetMaxFragment(frameCap(c.CWin, c.CMax) - 300)
+		}
 	}
 
 	wantAtServer := expected(cInit, c.Client)
@@ -882,6 +917,8 @@ func runOnce(c Case, bound time.Duration, vr variant) (v kit.Verdict, slow bool)
 			// a relay that ends the whole session when one direction fails takes the
 			// other direction down with it: that is a consequence, not a second failure
 			out.Addf(sigPushCont, "server sent PUSH_PROMISE without END_HEADERS followed by CONTINUATION; the server-to-client direction of the relay ended and nothing further was forwarded%s", r.diag())
+		case (c2s && largeFrames(c.Client)) || (s2c && largeFrames(server)):
+			out.Addf("C08/session/frames-above-16384/relay-session-aborted", "a script sends frames above 16 384 octets (its peer announced a larger SETTINGS_MAX_FRAME_SIZE) and the relay ended the session mid-script%s", r.diag())
 		case (c2s && growsTable(c.Client)) || (s2c && growsTable(server)):
 			out.Addf("C08/session/encoder-table-above-4096/relay-session-aborted", "a script raises its encoder's dynamic table above 4096 (allowed by the peer's SETTINGS_HEADER_TABLE_SIZE) and the relay ended the session mid-script%s", r.diag())
 		case s2c && c2s:
@@ -993,7 +1030,7 @@ func run(c Case) kit.Verdict {
 // ---------------------------------------------------------------- checks
 
 var propScripts = &kit.Prop[Case]{
-	ID: "C08", Name: "frame-scripts",
+	ID: "C08", Name: "frame-scripts", Journal: true,
 	Rule: "frame scripts over 1..K client-initiated streams plus pushed streams in both directions (HEADERS/trailers with drawn CONTINUATION cuts, priority, padding; padded DATA; RST_STREAM, PRIORITY, PUSH_PROMISE; SETTINGS, PING, GOAWAY; encoder table-size changes), a drawn interleaving, client transport segmentation, a receiver window behaviour per side and a stream-processor configuration; each side's normalised per-stream history and connection frames must equal what the other side sent; non-trivial = any CONTINUATION, padding, interleaved streams, DATA that can exceed the receiver's stream window, or segmentation below 24 bytes",
 	Gen:  genCase, Run: run, NonTrivial: nontrivial, Classes: classes,
 	Gates: map[string]float64{"continuation": 0.15, "padding": 0.15, "interleaved-streams": 0.15, "window-blocked": 0.15, "segmentation<24": 0.15, "encoder-table-above-4096": 0.08},
